@@ -286,7 +286,15 @@ class SimQueue(object):
 
     def put(self, obj, block=True, timeout=None):
         s = self.sched
-        data = pickle.dumps(obj, protocol=pickle.HIGHEST_PROTOCOL)
+        try:
+            data = pickle.dumps(obj, protocol=pickle.HIGHEST_PROTOCOL)
+        except Exception:
+            # multiprocessing.Queue.put() returns at once; it is the feeder thread that pickles the object, and when that
+            # fails it prints a traceback and goes on: the item never arrives, the putting process never learns
+            if self.rec is not None:
+                self.rec.fault("F6_unpicklable_item_lost")
+            s.yield_point("q.put:" + self.name)
+            return
         delay = 0
         if self.model == "faithful":
             delay = s.choice(self.max_delay + 1, "feeder")
